@@ -262,6 +262,7 @@ Next ==
        [] r.kind = "panic" ->
             /\ Report(FALSE, r.id, "C06", "panic") \in BOOLEAN
             /\ UNCHANGED <<S, prev, synced>>
+       [] OTHER -> UNCHANGED <<S, prev, synced>>          \* statistics records of the harness
 
 Init == l = 1 /\ S = InitStore /\ prev = <<>> /\ synced = FALSE
 Spec == Init /\ [][Next]_vars
